@@ -36,10 +36,16 @@ def kernel_text(klen):
             lines.append("add x10, x20, #1")
         elif i == klen - 2:
             lines.append("add x20, x10, #1")
+        elif i == klen - 7:
+            # a mutual recurrence of two self-updating neighbours (cycles {a}, {b}, {a, b}): an instruction that was already seen on
+            # a cycle through an earlier root is still the root of cycles of its own
+            lines.append("fadd d30, d30, d31")
+        elif i == klen - 6:
+            lines.append("fmul d31, d31, d30")
         elif i - 8 < len(free):
             lines.append(f"add {free[i - 8]}, {free[i - 8]}, #1")
         else:
-            d = (i - 8 - len(free)) % 32
+            d = (i - 8 - len(free)) % 30
             lines.append(f"fadd d{d}, d{d}, d{d}")
     # non-instruction lines are kernel entries too (label, comment, directive): every INSTRUCTION must still be a search root
     lines[0:0] = [".L1:"]
